@@ -36,3 +36,6 @@ func be(b []byte) uint64 {
 func cAssert(c bool, label string) { nd.Assert(c, label) }
 
 func nowZero() (t time.Time) { return }
+
+func timeUnix(s int64) time.Time       { return time.Unix(s, 0) }
+func timeUnixMilli(ms int64) time.Time { return time.UnixMilli(ms) }
